@@ -114,7 +114,7 @@ func taprootView(c *frost.Config) *frost.TaprootConfig {
 
 func c11Cases(env vk.Env) []vk.Case {
 	var cs []vk.Case
-	for i := 0; i < env.Pick(3, 20); i++ {
+	for i := 0; i < env.Pick(3, 200); i++ {
 		i := i
 		cs = append(cs, vk.Case{ID: fmt.Sprintf("frost/%d", i), Run: func(t *vk.T) { c11Frost(t, i, env) }})
 		cs = append(cs, vk.Case{ID: fmt.Sprintf("bip340/%d", i), Run: func(t *vk.T) { c11BIP340(t, i) }})
@@ -199,7 +199,7 @@ func c11Frost(t *vk.T, i int, env vk.Env) {
 		c.tcfg = taprootView(cc)
 	})
 	// a few multi-dimension contexts
-	for j := 0; j < env.Pick(6, 30); j++ {
+	for j := 0; j < env.Pick(6, 100); j++ {
 		j := j
 		add("multi", fmt.Sprint(j), func(c *c11Ctx) {
 			c.msg = r.Bytes(20 + r.Intn(30))
